@@ -2,3 +2,6 @@ import Pxv.Model.Body
 import Pxv.Thm.C14
 import Pxv.Model.Domain
 import Pxv.Thm.C20
+import Pxv.Model.Bp
+import Pxv.Model.Attr
+import Pxv.Thm.C19
